@@ -368,7 +368,20 @@ def rule_r9(ctx):
         ctx.r.violation(rid, key_of(f, None, "slash-normalisation"), "leading slashes are not collapsed before the url_prefix comparison", f.loc())
 
 
-RULES = [rule_r1, rule_r2, rule_r3, rule_r4, rule_r5, rule_r7, rule_r8, rule_r9]
+def rule_r10(ctx):
+    """Shared with C17.R1-R4 and C02.R1/R2b: wsgi.input is the receiver's buffer - it holds exactly the body bytes only if the
+    buffers are faithful queues (also across the spill to a temporary file) and the receivers' carry fields are kept right
+    however the body was cut into reads."""
+    from . import c02, c17
+    c17.rule_r1(ctx, rid="C07.R10")
+    c17.rule_r2(ctx, rid="C07.R10")
+    c17.rule_r3(ctx, rid="C07.R10")
+    c17.rule_r4(ctx, rid="C07.R10")
+    c02.rule_r1(ctx, rid="C07.R11")
+    c02.rule_r2_receivers(ctx, rid="C07.R11")
+
+
+RULES = [rule_r1, rule_r2, rule_r3, rule_r4, rule_r5, rule_r7, rule_r8, rule_r9, rule_r10]
 
 from ..selftest import M, T, V  # noqa: E402
 
